@@ -147,23 +147,30 @@ def _line_search(
     if alpha_min >= alpha_max:
         return x, objective_fn(x), 1
 
-    def f_alpha(alpha: float) -> float:
+    def point(alpha: float) -> list[float]:
         x_new = [x[i] + alpha * direction[i] for i in range(n)]
-        return sign * objective_fn(x_new)
+        if bounds is not None:
+            # bracketing knows nothing about the admissible range: never leave the box
+            x_new = [min(max(x_new[i], bounds[i][0]), bounds[i][1]) for i in range(n)]
+        return x_new
+
+    def f_alpha(alpha: float) -> float:
+        if bounds is not None:
+            alpha = min(max(alpha, alpha_min), alpha_max)
+        return sign * objective_fn(point(alpha))
 
     # Bracket the minimum
     mid = (alpha_min + alpha_max) / 2
     a, _, c, bracket_evals = _bracket_minimum(f_alpha, mid, mid + 0.1 * (alpha_max - mid))
 
     # Clamp bracket to valid range
-    a = max(a, alpha_min)
-    c = min(c, alpha_max)
+    a = min(max(a, alpha_min), alpha_max)
+    c = min(max(c, alpha_min), alpha_max)
 
     # Golden section search
     alpha_opt, f_opt, search_evals = _golden_section_search(f_alpha, a, c)
 
-    x_new = [x[i] + alpha_opt * direction[i] for i in range(n)]
-    return x_new, sign * f_opt, bracket_evals + search_evals
+    return point(alpha_opt), sign * f_opt, bracket_evals + search_evals
 
 
 def powell(
